@@ -551,6 +551,19 @@ def check_python_callers(rep, proj):
     interpreter accepts - None, a list / tuple / number / string literal where the declared signature has an array - makes the eager
     dispatcher raise TypeError when compilation is on, while the interpreted kernel (which may never read it) runs fine."""
     n = 0
+    # names of arrays made read-only somewhere in their module (X.setflags(write=False) / X.flags.writeable = False): numba types such an
+    # array as `readonly array`, which an eager signature with a mutable `f8[:]` parameter never matches
+    readonly = {}
+    for m in proj.modules.values():
+        for node in ast.walk(m.tree):
+            if isinstance(node, ast.Call) and isinstance(node.func, ast.Attribute) and node.func.attr == "setflags" and isinstance(node.func.value, ast.Name):
+                off = [k for k in node.keywords if k.arg == "write" and isinstance(k.value, ast.Constant) and k.value.value in (False, 0)]
+                if off or (node.args and isinstance(node.args[0], ast.Constant) and node.args[0].value in (False, 0)):
+                    readonly[(m.name, node.func.value.id)] = node.lineno
+            if isinstance(node, ast.Assign) and isinstance(node.value, ast.Constant) and node.value.value in (False, 0):
+                for t in node.targets:
+                    if isinstance(t, ast.Attribute) and t.attr == "writeable" and isinstance(t.value, ast.Attribute) and t.value.attr == "flags" and isinstance(t.value.value, ast.Name):
+                        readonly[(m.name, t.value.value.id)] = node.lineno
     for m in proj.modules.values():
         for node in ast.walk(m.tree):
             if not isinstance(node, ast.Call):
@@ -573,6 +586,13 @@ def check_python_callers(rep, proj):
                     continue
                 if isinstance(a, ast.Constant) or isinstance(a, (ast.List, ast.Tuple, ast.Dict, ast.Set, ast.ListComp)):
                     problems.append(f"{ast.unparse(a)[:30]} passed where the signature '{r[1].njit_sig}' declares an array ({pt})")
+                if isinstance(a, ast.Name):
+                    ra = proj.resolve_expr(m, a, caller)
+                    owner = ra[1].name if ra is not None and ra[0] == "const" and hasattr(ra[1], "name") else m.name
+                    for mod_name in {owner, m.name}:
+                        if (mod_name, a.id) in readonly:
+                            problems.append(f"{a.id} (made read-only at line {readonly[(mod_name, a.id)]}) passed where the signature '{r[1].njit_sig}' declares a mutable array ({pt})")
+                            break
             site = f"{m.relpath}:{node.lineno}"
             construct = f"{caller.fq if caller else m.name}->{r[1].fq}"
             rep.check(not problems, "C18.callers", site, construct, f"arguments compatible with '{r[1].njit_sig}'",
